@@ -806,6 +806,7 @@ class World(object):
         self.decisions = 0
         self.positives = []
         self.nl_hint = False
+        self.zero_polys = []    # nonlinear numerators decided == 0 on this path (see is_zero)
 
     # ---- declaring inputs
     def sym(self, name):
@@ -973,6 +974,8 @@ class World(object):
             b = self.decide(poly_z3(n) == 0)
             if b:
                 self._record_eq(n)
+                if zp.total_degree(n) > 1:
+                    self.zero_polys.append(n)
             return b if op == '==' else not b
         neg = False
         for a, e in d:
@@ -1075,6 +1078,12 @@ class World(object):
         if self.eqs:
             n = self.subst_eqs(n)
             if not n:
+                return True
+        # a multiple of a polynomial that this path decided to be zero (zero-detection branches of the real code,
+        # e.g. `if ND[j + 1] == 0.0`): exact division instead of an nlsat query
+        for zq in self.zero_polys:
+            z1 = self.subst_eqs(zq) if self.eqs else zq
+            if z1 and zp.divexact(n, z1) is not None:
                 return True
         # variable equalities implied by the path condition but not recorded (e.g. assumed clamping)
         n = self.subst_implied(n)
